@@ -126,14 +126,39 @@ impl Shards {
             for (j, c) in buf.iter().enumerate() {
                 let _ = writeln!(s, "Definition c{} : {} := {}.", j, self.case_ty, c);
             }
-            let _ = write!(s, "Definition cases : list ({}) := [", self.case_ty);
-            for j in 0..buf.len() {
-                if j > 0 {
-                    s.push_str("; ");
+            // a list literal of several 10^4 elements overflows coqc's stack
+            // (8 MB default): long case lists are built from chunks
+            const CHUNK: usize = 1000;
+            if buf.len() <= CHUNK {
+                let _ = write!(s, "Definition cases : list ({}) := [", self.case_ty);
+                for j in 0..buf.len() {
+                    if j > 0 {
+                        s.push_str("; ");
+                    }
+                    let _ = write!(s, "c{}", j);
                 }
-                let _ = write!(s, "c{}", j);
+                s.push_str("].\n");
+            } else {
+                let nchunks = (buf.len() + CHUNK - 1) / CHUNK;
+                for k in 0..nchunks {
+                    let _ = write!(s, "Definition cases_chunk_{} : list ({}) := [", k, self.case_ty);
+                    for j in (k * CHUNK)..((k + 1) * CHUNK).min(buf.len()) {
+                        if j > k * CHUNK {
+                            s.push_str("; ");
+                        }
+                        let _ = write!(s, "c{}", j);
+                    }
+                    s.push_str("].\n");
+                }
+                let _ = write!(s, "Definition cases : list ({}) := List.concat [", self.case_ty);
+                for k in 0..nchunks {
+                    if k > 0 {
+                        s.push_str("; ");
+                    }
+                    let _ = write!(s, "cases_chunk_{}", k);
+                }
+                s.push_str("].\n");
             }
-            s.push_str("].\n");
             // corr_* / prop_* report the FAILING indices, hyp_* / known_* the HOLDING ones
             for (tag, f) in &self.evals {
                 if tag.starts_with("hyp_") || tag.starts_with("known_") {
